@@ -83,3 +83,37 @@ Definition check_keys (t : tables) (f : fcase) (ob : obs) (intents : list intent
 Definition mkintentK ts cs content rule asc pat numeric sev : intentK :=
   {| ik_ts := ts; ik_cs := cs; ik_content := content; ik_rule := rule; ik_asc := asc;
      ik_pat := pat; ik_numeric := numeric; ik_sev := sev |}.
+
+(* ---------- C10: ranges ---------- *)
+(* a rule whose diagnostic must span exactly the start tag, '<' to '>' *)
+Record intentT := { it_ts : pos; it_te : pos; it_code : N }.
+
+Definition char_at (file : str) (p : pos) : option str := text_at file (fst p) (snd p) (snd p).
+
+Definition spec_tag_block (file : str) (i : intentT) (ds : list diag) : bool :=
+  let mine := filter (fun d => (d_code d =? it_code i) && (d_sl d =? fst (it_ts i)) && (d_sc d =? snd (it_ts i))) ds in
+  match mine with
+  | [d] =>
+    (d_el d =? fst (it_te i)) && (d_ec d =? snd (it_te i))
+    && match char_at file (d_sl d, d_sc d), char_at file (d_el d, d_ec d) with
+       | Some [60], Some [62] => true
+       | _, _ => false
+       end
+  | _ => false
+  end.
+
+Definition check_ranges (t : tables) (f : fcase) (ob : obs)
+                        (ks : list intentK) (ts : list intentT) : N :=
+  let o := oracles_of t in
+  let m := model_scan_run t [f] [] [] in
+  let spec :=
+    match ob with
+    | ObsReport ds _ =>
+      let mine := diags_of_file (f_path f) ds in
+      forallb (fun i => spec_keys_block o (f_text f) i mine) ks
+      && forallb (fun i => spec_tag_block (f_text f) i mine) ts
+    | _ => false
+    end in
+  verdict (run_agrees m ob) spec (oracle_missed m).
+
+Definition mkintentT ts te code : intentT := {| it_ts := ts; it_te := te; it_code := code |}.
